@@ -9,6 +9,7 @@ import (
 	"math/rand"
 	"os"
 	"path/filepath"
+	"strings"
 	"sync"
 	"sync/atomic"
 	"time"
@@ -116,6 +117,22 @@ type tickRun struct {
 	done chan struct{}
 }
 
+// unavailable: the ways in which a CRL server is out of order for a while - a maintenance page served with status 200, an error
+// status with an error page as body, a connection that is cut
+func (rw *refWorld) unavailable(path string, n int64) {
+	page := []byte("<html><head><title>Service Temporarily Unavailable</title></head><body>" + strings.Repeat("<p>The server is temporarily unable to service your request due to maintenance downtime or capacity problems. Please try again later.</p>", 40) + "</body></html>")
+	switch n % 4 {
+	case 0:
+		rw.org.SetBody(path, []byte("temporarily unavailable"))
+	case 1:
+		rw.org.Set(path, origin.Behaviour{Kind: "status", Code: 503, Body: page})
+	case 2:
+		rw.org.Set(path, origin.Behaviour{Kind: "status", Code: 404, Body: page})
+	default:
+		rw.org.Set(path, origin.Behaviour{Kind: "status", Code: 500, Body: page})
+	}
+}
+
 func (rw *refWorld) publish(in *refInstance, ok bool, listLeaf bool) {
 	if rw.shared {
 		// both instances are configured with the SAME crl_urls entry. The CA revokes both leaves at once, and it does not re-issue
@@ -133,21 +150,21 @@ func (rw *refWorld) publish(in *refInstance, ok bool, listLeaf bool) {
 			}
 			rw.org.SetBody(in.pathU, rw.sharedEmpty)
 		} else {
-			rw.org.SetBody(in.pathU, []byte("temporarily unavailable"))
+			rw.unavailable(in.pathU, in.number)
 		}
 		in.number++
 		if ok {
 			// (the distribution point's own list names nobody: whether the leaf is rejected depends on the shared configured list)
 			rw.org.SetBody(in.pathD, rw.ca.SimpleCRL(in.number))
 		} else {
-			rw.org.SetBody(in.pathD, []byte("temporarily unavailable"))
+			rw.unavailable(in.pathD, in.number+1)
 		}
 		return
 	}
 	in.number++
 	if !ok {
-		rw.org.SetBody(in.pathU, []byte("temporarily unavailable"))
-		rw.org.SetBody(in.pathD, []byte("temporarily unavailable"))
+		rw.unavailable(in.pathU, in.number)
+		rw.unavailable(in.pathD, in.number+1)
 		return
 	}
 	var serials []int64
@@ -443,6 +460,7 @@ func runRefresherWalk(c *vk.Ctx, walk []*graph.Edge, seed int64) {
 			select {
 			case <-tr.done:
 			case <-time.After(30 * time.Second):
+				refreshMutexLost.Store(true)
 				c.Violation("refresh-pass-never-returns", "a refresh pass did not return within 30 s", rep())
 				return
 			}
